@@ -634,6 +634,13 @@ func (w *world) Finished(e *sim.Env) bool {
 			}
 			sort.Ints(ids)
 			for _, id := range ids {
+				if w.mode == "seqp" {
+					// after a delete callback has panicked inside Clear, whether the entries behind it
+					// stay resident (and get their callback later) or are dropped is not something the
+					// property's "create functions that fail" quantifier settles: only the unambiguous
+					// clauses are judged in this mode (never twice, never for an entry that stays)
+					break
+				}
 				if w.deleted[id] != 1 {
 					e.Violate(w.delProp(), "delete_count", "value #%d of key %q was created successfully but the delete callback ran %d times for it by the time the cache was cleared", id, w.created[id], w.deleted[id])
 					break
